@@ -72,6 +72,11 @@ def check(ctx):
         cat = catalogue(a, cls)
         eng = cat.eng
         cq = cls_short(cls.qual)
+        # ID-LIVE: the in-use scan looks at the registries, so they have to hold every unfinished request: an entry leaves a
+        # registry only together with the settling of its Deferred (fired, or handed to the entry that replaces it)
+        from .flows import rule_drop, mark_qos0_exception
+        mark_qos0_exception(cat)      # a QoS 0 request carries no identifier: leaving the queue unsettled-looking is no concern here
+        rule_drop(ctx, cat, prefix="ID-LIVE")
         for tr in contexts(cat):
             for e in tr.events:
                 if e.kind == "FACRET":
@@ -243,6 +248,50 @@ def check(ctx):
                            _regs_of(its), "filters entries with %s" % show(filt[0])[:80] if filt else
                            ("is not an any() over the identifier test (%s, consumed by %s)" % (show(elt)[:60], cp.a.get("consumer")))))
             ctx.floor("in-use scan iterations checked", n_scan, 2)
+        # ID-VERDICT: the allocator leaves its candidate loop - by break or return - only with the "not in use" verdict for the
+        # candidate in hand; the only other way out is the loop's own end (every candidate tried).  The verdict on a path is the
+        # negative outcome of the membership test against the registries / the collected set, the in-use scan function having
+        # handed back its "nothing found" value, or the any()-scan having been false.
+        for tr2, e2 in evs[:1]:
+            cand_loops = [lp for lp in tr2.path.walk() if lp.kind == "LOOP" and lp.func == fq
+                          and not any(isinstance(sub, tuple) and sub[:1] in (("regtop",), ("reg",)) for sub in subterms(lp.a.get("iter") or ()))]
+            found_vals = set()
+            for lp in tr2.path.walk():
+                if lp.kind == "LOOP" and lp.func != fq and any(fr[2] == fq for fr in lp.stack):
+                    for bp in lp.a["body"]:
+                        if bp.exit_kind() == "return" and bp.exit is not None:
+                            found_vals.add(bp.exit[1])
+            for lp in cand_loops:
+                trips = loop_trips(lp)
+                if trips is not None:
+                    # the loop's own end is the "every candidate tried" exit only if it can try them all
+                    ctx.ob("ID-VERDICT", "%s tries every identifier before it gives up (%s:%d)" % (short(fq), lp.file, lp.line), trips >= 65535,
+                           where="%s:%d" % (lp.file, lp.line), function=fq, construct="%s/gives-up-early" % fq,
+                           msg="the allocator gives up after %d candidates and hands out the last one tried: with more than that many "
+                               "consecutive identifiers in use it returns one that is still unfinished (65535 candidates exist)" % trips)
+                for bp in lp.a["body"]:
+                    if bp.exit_kind() not in ("break", "return"):
+                        continue
+                    own_conds = bp.conds[len(lp.conds):]
+                    free = False
+                    for c in own_conds:
+                        t, pol = c.term, c.pol
+                        while isinstance(t, tuple) and t and t[0] == "not":
+                            t, pol = t[1], not pol
+                        if isinstance(t, tuple) and t[:1] == ("cmp",) and t[1] in ("in", "not in") and isinstance(t[3], tuple) \
+                                and (t[3][:1] == ("accum",) or any(isinstance(s, tuple) and s[:1] in (("reg",), ("regtop",)) for s in subterms(t[3]))):
+                            if (t[1] == "not in") == bool(pol):
+                                free = True
+                        if isinstance(t, tuple) and t[:1] == ("call",) and t[1] == ("builtin", "any") and pol is False:
+                            free = True
+                    for x in bp.walk():
+                        if x.kind == "MRET" and x.a["func"] != fq and found_vals and is_const(x.a["val"]) and x.a["val"] not in found_vals:
+                            free = True
+                    ctx.ob("ID-VERDICT", "%s leaves its candidate loop (%s) only with a candidate found free" % (short(fq), bp.exit_kind()), free,
+                           where="%s:%d" % (lp.file, lp.line), function=fq, construct="%s/early-exit" % fq,
+                           msg="the allocator leaves its loop over the candidates by %s on a path where the candidate in hand was not found free "
+                               "(conditions %s): an identifier still in use is handed out" % (
+                                   bp.exit_kind(), [repr(c) for c in own_conds][-3:]))
         regs_read = set()
         for x in reads:
             if x.a.get("reg"):
@@ -260,6 +309,50 @@ def check(ctx):
                msg="the allocator reads nothing but its counter: after the 16-bit counter wraps it hands out identifiers of requests that are "
                    "still unfinished (counter at 65534 with ids 1-3 pending -> 65535, 1, 2, 3)")
     ctx.count("allocator_events", n_alloc)
+
+
+def loop_trips(lp):
+    """Number of iterations a counted loop makes at most, when it can be read off: for _ in range(K); while n: n -= 1 from
+    n = K; while n < K: n += 1 from n = 0.  None otherwise."""
+    it = lp.a.get("iter")
+    if isinstance(it, tuple) and it[:2] == ("call", ("builtin", "range")) and len(it[2]) == 1 and is_const(it[2][0]) and isinstance(it[2][0][1], int):
+        return it[2][0][1]
+    t = lp.a.get("test")
+    pre = lp.a.get("pre") or {}
+    if t is None:
+        return None
+    bound = None
+    var = None
+    if isinstance(t, tuple) and t[:1] == ("unk",) and "@loop" in str(t[1]):
+        var, kind = str(t[1]).partition("@loop")[0], "down"
+    elif isinstance(t, tuple) and t[:1] == ("cmp",) and isinstance(t[2], tuple) and t[2][:1] == ("unk",) and "@loop" in str(t[2][1]) and is_const(t[3]):
+        var = str(t[2][1]).partition("@loop")[0]
+        if t[1] in (">", "!=") and t[3][1] == 0:
+            kind = "down"
+        elif t[1] == ">=" and t[3][1] == 1:
+            kind = "down"
+        elif t[1] == "<" and isinstance(t[3][1], int):
+            kind, bound = "up", t[3][1]
+        elif t[1] == "<=" and isinstance(t[3][1], int):
+            kind, bound = "up", t[3][1] + 1
+        else:
+            return None
+    else:
+        return None
+    p0 = pre.get(var)
+    if not (is_const(p0) and isinstance(p0[1], int)):
+        return None
+    step_ok = True
+    for bp in lp.a["body"]:
+        if bp.exit_kind() in ("raise",) or bp.st is None:
+            continue
+        v = bp.st.env.get(var)
+        want = ("binop", "Sub" if kind == "down" else "Add", ("unk", "%s@loop%s" % (var, lp.a.get("loop"))), ("const", 1))
+        if v != want and bp.exit_kind() in ("fall", "continue"):
+            step_ok = False
+    if not step_ok:
+        return None
+    return p0[1] if kind == "down" else (bound - p0[1])
 
 
 def _regs_of(it):
